@@ -72,6 +72,8 @@ type mcfg struct {
 	Recv   []string `json:"recv"`
 	Mti    []string `json:"mti"`
 	Ti     []string `json:"ti"`
+	Ibody  []mbody  `json:"ibody"` // time interval bodies as tokens (c17_body_test.go)
+	Sec    []msec   `json:"sec"`   // secret-bearing fields the document sets (c17_body_test.go)
 }
 
 type meff struct {
@@ -90,7 +92,13 @@ type gcase struct {
 	Clauses map[string]bool `json:"clauses"`
 	Rt      bool            `json:"rt"`  // the specification's printed form loads back to an equivalent tree
 	Gap     bool            `json:"gap"` // EmptyGroupByGap of Config.tla
+	GapSec  bool            `json:"gapsec"` // EmptySecretPointerGap of Config.tla
 	Eff     []meff          `json:"eff"`
+	// time interval bodies: the values the loader must store, the tokens the textual form
+	// must show; secrets: what the textual form shows in their place ("<secret>", "omitted")
+	Bvals    []vbody  `json:"bvals"`
+	Bprinted []mbody  `json:"bprinted"`
+	Secp     []string `json:"secp"`
 }
 
 // ---------------------------------------------------------------- rendering
@@ -174,11 +182,14 @@ func renderNode(c mcfg, i int) yaml.MapSlice {
 	return m
 }
 
-func renderIntervals(names []string) []any {
+func renderIntervals(c mcfg, names []string) []any {
 	var out []any
 	for _, n := range names {
 		it := yaml.MapSlice{{Key: "name", Value: n}}
-		if b, ok := intervalBodies[n]; ok {
+		if b := bodyOf(c, n); b != nil {
+			// the body the specification gives this interval (tokens -> text)
+			it = append(it, yaml.MapItem{Key: "time_intervals", Value: renderElems(b.Elems)})
+		} else if b, ok := intervalBodies[n]; ok {
 			it = append(it, yaml.MapItem{Key: "time_intervals", Value: b})
 		}
 		out = append(out, it)
@@ -188,6 +199,15 @@ func renderIntervals(names []string) []any {
 
 // render turns an abstract configuration into YAML text.
 func render(c mcfg) string {
+	b, err := yaml.Marshal(renderDoc(c))
+	if err != nil {
+		panic(err)
+	}
+	return string(b)
+}
+
+// renderDoc: the document without the secret-bearing fields of c.Sec (planSecrets adds them).
+func renderDoc(c mcfg) yaml.MapSlice {
 	doc := yaml.MapSlice{{Key: "route", Value: renderNode(c, 0)}}
 	var rs []any
 	for i, r := range c.Recv {
@@ -199,17 +219,13 @@ func render(c mcfg) string {
 	}
 	doc = append(doc, yaml.MapItem{Key: "receivers", Value: rs})
 	if len(c.Mti) > 0 {
-		doc = append(doc, yaml.MapItem{Key: "mute_time_intervals", Value: renderIntervals(c.Mti)})
+		doc = append(doc, yaml.MapItem{Key: "mute_time_intervals", Value: renderIntervals(c, c.Mti)})
 	}
 	if len(c.Ti) > 0 {
-		doc = append(doc, yaml.MapItem{Key: "time_intervals", Value: renderIntervals(c.Ti)})
+		doc = append(doc, yaml.MapItem{Key: "time_intervals", Value: renderIntervals(c, c.Ti)})
 	}
 	doc = append(doc, yaml.MapItem{Key: "inhibit_rules", Value: inhibitRules})
-	b, err := yaml.Marshal(doc)
-	if err != nil {
-		panic(err)
-	}
-	return string(b)
+	return doc
 }
 
 // ---------------------------------------------------------------- calling the real loader
@@ -534,6 +550,13 @@ func intervalsDiffer(a, b map[string][]timeinterval.TimeInterval) string {
 				return fmt.Sprintf("time interval %q contains %s: %v before, %v after the round trip", n, t.Format(time.RFC3339), x, y)
 			}
 		}
+		// boundary instants: first/last minutes of days, first/last days of months and years,
+		// as wall-clock readings of every zone the intervals name
+		for _, t := range boundaryInstants(a[n], b[n]) {
+			if x, y := containsAny(a[n], t), containsAny(b[n], t); x != y {
+				return fmt.Sprintf("time interval %q contains %s: %v before, %v after the round trip", n, t.Format(time.RFC3339), x, y)
+			}
+		}
 	}
 	return ""
 }
@@ -547,10 +570,12 @@ type cfgFeatures struct {
 	emptyIntvField  bool
 	nullIntegration bool
 	zeroRange       bool // a time/day/month range with the zero value (what a YAML null element decodes to)
+	emptyPtrSecret  bool // a secret kept behind a pointer is given as the empty string (non-nil pointer to "")
 }
 
 func featuresOf(c *config.Config) cfgFeatures {
 	var f cfgFeatures
+	f.emptyPtrSecret = hasEmptySecretPointer(reflect.ValueOf(c), map[uintptr]bool{})
 	walkRoutes(c.Route, func(r *config.Route, d int) {
 		if r == nil {
 			return
@@ -684,6 +709,10 @@ func roundTrip(c *config.Config, text string) (class, what string, got any) {
 		switch {
 		case f.emptyRegexp && strings.Contains(msg, "invalid regexp value"):
 			cl = "rt_empty_regexp"
+		case f.emptyPtrSecret && strings.Contains(msg, "set either inline or in a file"):
+			// `token: ''` is a non-nil pointer to the empty secret: accepted as "configured",
+			// printed as null, read back as "not configured"
+			cl = "rt_empty_secret_pointer"
 		case (f.emptyNameRecv || f.emptyNameIntv || f.zeroRange || f.nullIntegration) && docFeaturesOf(text).nullElem:
 			// a YAML null list element was decoded to a zero value without validation
 			cl = "rt_null_element"
@@ -929,6 +958,8 @@ func TestReplay(t *testing.T) {
 	defer res.Write()
 	k := &checker{res: res}
 	defects := map[string]bool{}
+	bs := newBodyState(res)
+	defer bs.finish()
 	err := hx.Lines(*hx.In, func(i int, line []byte) error {
 		var g gcase
 		if err := json.Unmarshal(line, &g); err != nil {
@@ -950,12 +981,34 @@ func TestReplay(t *testing.T) {
 		}
 		expectRT := ""
 		if g.Valid && !g.Rt {
-			if !g.Gap {
-				return fmt.Errorf("line %d: the specification predicts a round-trip difference outside its known gap", i)
+			switch {
+			case g.Gap:
+				expectRT = "rt_empty_group_by"
+			case g.GapSec:
+				expectRT = "rt_empty_secret_pointer"
+			default:
+				return fmt.Errorf("line %d: the specification predicts a round-trip difference outside its known gaps", i)
 			}
-			expectRT = "rt_empty_group_by"
+		}
+		var plan *secretPlan
+		if len(g.Cfg.Sec) > 0 {
+			// the secret-bearing fields the specification sets; whether the loader accepts a
+			// shape at a site is not a claim of the specification (expect = 0)
+			plan = bs.plan(g)
+			text, expect = plan.text, 0
+			if len(plan.applied) == 0 {
+				return nil
+			}
 		}
 		ok, cfg, _ := k.judgeRT(i, "tlc:"+g.Defect, text, expect, false, expectRT)
+		if ok && cfg != nil {
+			if plan != nil {
+				bs.checkSecrets(k, i, cfg, plan, text)
+			}
+			if len(g.Cfg.Ibody) > 0 {
+				bs.checkBodies(k, i, g, cfg, text)
+			}
+		}
 		if !g.Valid {
 			if !ok {
 				res.Count("defects_rejected", 1)
@@ -2115,6 +2168,7 @@ var knownRepro = []struct{ class, text string }{
 	{"rt_null_element", "route:\n  receiver: a\nreceivers:\n- name: a\n- \n"},
 	{"rt_empty_group_by", "route:\n  receiver: a\n  group_by: [x]\n  routes:\n  - group_by: []\n    matchers: ['a=\"b\"']\nreceivers:\n- name: a\n"},
 	{"rt_empty_regexp", "route:\n  receiver: a\n  routes:\n  - match_re:\n      a: ''\nreceivers:\n- name: a\n"},
+	{"rt_empty_secret_pointer", "route:\n  receiver: a\nreceivers:\n- name: a\n  rocketchat_configs:\n  - token: ''\n    token_id_file: /etc/am/id\n"},
 	{"rt_empty_interval_field", "route:\n  receiver: a\n  routes:\n  - matchers: ['a=\"b\"']\n    mute_time_intervals: [t]\nreceivers:\n- name: a\ntime_intervals:\n- name: t\n  time_intervals:\n  - times: []\n"},
 }
 
